@@ -237,7 +237,52 @@ func (g *Graph) findFlags() {
 	info := g.Info
 	cand := map[*types.Var]bool{}
 	candNil := map[*types.Var]bool{}
+	candNil2 := map[*types.Var]bool{} // other locals of a nilable type that the body compares with nil
 	bad := map[*types.Var]bool{}
+	nilTested := map[*types.Var]bool{}
+	ast.Inspect(g.Body, func(m ast.Node) bool {
+		if b, ok := m.(*ast.BinaryExpr); ok && (b.Op == token.EQL || b.Op == token.NEQ) {
+			x, y := b.X, b.Y
+			if g.isNilLit(x) {
+				x, y = y, x
+			}
+			if g.isNilLit(y) {
+				if id, ok := ast.Unparen(x).(*ast.Ident); ok {
+					if v, ok := info.Uses[id].(*types.Var); ok && !v.IsField() {
+						nilTested[v] = true
+					}
+				}
+			}
+		}
+		return true
+	})
+	// a variable that is copied into (or from) a nil-tested one carries the same information
+	for changed := true; changed; {
+		changed = false
+		ast.Inspect(g.Body, func(m ast.Node) bool {
+			as, ok := m.(*ast.AssignStmt)
+			if !ok || len(as.Lhs) != len(as.Rhs) {
+				return true
+			}
+			for i := range as.Lhs {
+				l, okL := ast.Unparen(as.Lhs[i]).(*ast.Ident)
+				r, okR := ast.Unparen(as.Rhs[i]).(*ast.Ident)
+				if !okL || !okR {
+					continue
+				}
+				lv, _ := info.ObjectOf(l).(*types.Var)
+				rv, _ := info.ObjectOf(r).(*types.Var)
+				if lv == nil || rv == nil || lv.IsField() || rv.IsField() {
+					continue
+				}
+				if nilTested[lv] != nilTested[rv] {
+					nilTested[lv], nilTested[rv] = true, true
+					changed = true
+				}
+			}
+			return true
+		})
+	}
 	note := func(e ast.Expr, here bool) {
 		id, ok := ast.Unparen(e).(*ast.Ident)
 		if !ok {
@@ -252,6 +297,17 @@ func (g *Graph) findFlags() {
 			return
 		}
 		isErr := types.Identical(v.Type(), types.Universe.Lookup("error").Type())
+		if !isErr && nilTested[v] {
+			switch v.Type().Underlying().(type) {
+			case *types.Pointer, *types.Interface, *types.Map, *types.Slice, *types.Signature, *types.Chan:
+				if here {
+					candNil2[v] = true
+				} else {
+					bad[v] = true
+				}
+				return
+			}
+		}
 		if b, ok := v.Type().Underlying().(*types.Basic); (!ok || b.Kind() != types.Bool) && !isErr {
 			return
 		}
@@ -399,6 +455,17 @@ func (g *Graph) findFlags() {
 	if len(nils) > maxTracked-len(flags) {
 		nils = nils[:maxTracked-len(flags)]
 	}
+	var nils2 []*types.Var
+	for v := range candNil2 {
+		if !bad[v] {
+			nils2 = append(nils2, v)
+		}
+	}
+	sort.Slice(nils2, func(i, j int) bool { return nils2[i].Pos() < nils2[j].Pos() })
+	if room := maxTracked - len(flags) - len(nils); len(nils2) > room {
+		nils2 = nils2[:room]
+	}
+	nils = append(nils, nils2...)
 	for i, v := range nils {
 		g.nilIx[v] = len(flags) + i
 	}
@@ -466,6 +533,17 @@ func (g *Graph) evalNonNil(e ast.Expr, v Val) int {
 		if fn, isF := CalleeOf(g.Info, call).(*types.Func); isF && (IsPkgFunc(fn, "fmt", "Errorf") || IsPkgFunc(fn, "errors", "New")) {
 			return tvT
 		}
+		if id, isId := ast.Unparen(call.Fun).(*ast.Ident); isId {
+			if b, isB := g.Info.Uses[id].(*types.Builtin); isB && (b.Name() == "make" || b.Name() == "new") {
+				return tvT
+			}
+		}
+	}
+	if u, ok := ast.Unparen(e).(*ast.UnaryExpr); ok && u.Op == token.AND {
+		return tvT
+	}
+	if _, ok := ast.Unparen(e).(*ast.FuncLit); ok {
+		return tvT
 	}
 	return tvU
 }
@@ -1211,6 +1289,7 @@ type Query struct {
 	NoFlags   bool              // ignore flag valuations (path-insensitive)
 	NoSeed    bool              // start nodes begin with no knowledge of the flags (default: what the entry of the function can establish)
 	NonNil    []types.Object    // tracked error locals known to be non-nil at the start nodes
+	Nil       []types.Object    // tracked nilable locals known to be nil at the start nodes
 	Assume    func(Fact) bool   // atoms taken to hold (Fact{x,true}: x holds; Fact{x,false}: x does not) while conditions and flag assignments are evaluated
 }
 
@@ -1261,6 +1340,13 @@ func (g *Graph) Reach(q Query) map[*GNode]bool {
 		if v, isV := o.(*types.Var); isV {
 			if i, ok := g.nilIx[v]; ok {
 				v0 = v0.set(i, tvT)
+			}
+		}
+	}
+	for _, o := range q.Nil {
+		if v, isV := o.(*types.Var); isV {
+			if i, ok := g.nilIx[v]; ok {
+				v0 = v0.set(i, tvF)
 			}
 		}
 	}
@@ -1384,6 +1470,13 @@ func (g *Graph) ReachVals(q Query) map[*GNode]map[Val]bool {
 		if v, isV := o.(*types.Var); isV {
 			if i, ok := g.nilIx[v]; ok {
 				v0 = v0.set(i, tvT)
+			}
+		}
+	}
+	for _, o := range q.Nil {
+		if v, isV := o.(*types.Var); isV {
+			if i, ok := g.nilIx[v]; ok {
+				v0 = v0.set(i, tvF)
 			}
 		}
 	}
